@@ -5,6 +5,7 @@
   ParserLemmas.lean.  All quantifiers are unbounded (all strings, all token lists, all fuel values).
 -/
 import WR.C06.ParserLemmas
+import WR.C06.Nth
 namespace WR.Props.C06
 open WR.C06 List
 set_option linter.unusedSimpArgs false
@@ -350,5 +351,24 @@ theorem blocks_content_nested_rule (first : Tok) (p : Nat) (d r args : List Tok)
 example : ∀ q n v i, parseDeclaration (Tok.ident 0 ['a']) ([] ++ [Tok.block 1 .curly []]) ≠ .decl q n v i := by
   intro q n v i h
   simp [parseDeclaration, nextSignificant, isTrivia, isLit] at h
+
+
+/-! ## An+B (css-syntax-3 §6; model WR/C06/Nth.lean, compared with parser.ParseNth by the harness) -/
+
+/-- an explicitly signed number after the `+` / `-` operator is not in the grammar; the signless and the
+directly signed forms are -/
+theorem anb_examples :
+    parseNth (tokenizePre Quirks.spec ['2', 'n', ' ', '+', ' ', '+', '1']) = none ∧
+    parseNth (tokenizePre Quirks.spec ['n', ' ', '-', ' ', '-', '0']) = none ∧
+    parseNth (tokenizePre Quirks.spec ['2', 'n', ' ', '+', ' ', '1']) = some (2, 1) ∧
+    parseNth (tokenizePre Quirks.spec ['2', 'n', ' ', '+', '1']) = some (2, 1) ∧
+    parseNth (tokenizePre Quirks.spec ['-', 'n', '-', ' ', '3']) = some (-1, -3) ∧
+    parseNth (tokenizePre Quirks.spec ['+', ' ', 'n']) = none ∧
+    parseNth (tokenizePre Quirks.spec ['O', 'd', 'D']) = some (2, 1) := by decide
+
+/-- whatever follows a complete An+B makes it invalid -/
+theorem anb_nothing_after (ts : List Tok) (t : Tok) (rest : List Tok)
+    (h : nextSignificant ts = some (t, rest)) : nthEnd ts = false := by
+  simp [nthEnd, h]
 
 end WR.Props.C06
